@@ -13,8 +13,19 @@ def floats(lo, hi):
     return st.floats(lo, hi, allow_nan=False, allow_infinity=False, allow_subnormal=False, width=64)
 
 
+@st.composite
+def _big_arr(draw, shape, lo, hi):
+    """Large arrays (high-dimensional cases) would exceed Hypothesis' per-example data budget: the bulk is a deterministic
+    function of one drawn integer (numpy RandomState), so the case stays a pure function of the drawn data; the replay file
+    stores the array itself."""
+    seed = draw(st.integers(0, 2**32 - 1))
+    return np.random.RandomState(seed).uniform(lo, hi, size=shape)
+
+
 def arr(shape, lo=-2.0, hi=2.0):
     shape = tuple(int(s) for s in shape)
+    if int(np.prod(shape)) > 160:
+        return _big_arr(shape, lo, hi)
     return hnp.arrays(np.float64, shape, elements=floats(lo, hi), fill=st.nothing())
 
 
@@ -98,8 +109,10 @@ def measure_params(draw, kind, R, D, kappa=100.0, extreme=False):
     # and an overall scale of the matrix (the properties quantify over arbitrary values)
     vs = draw(st.sampled_from([1.0, 1.0, 1.0, 1.0, 5.0, 0.01]))
     # `extreme`: overall scales of 1e+-8 (a change of units), used where the case stays unit-consistent or consists of
-    # a single object, so that derived matrices remain well conditioned
-    ms = draw(st.sampled_from([1.0, 1.0, 1.0, 1.0, 1.0, 1.0, 30.0, 0.03] + ([1e8, 1e-8] if extreme else [])))
+    # a single object, so that derived matrices remain well conditioned; "wide" (high-dimensional cases): standard deviations
+    # of 1e+-8 more often, so that determinants leave the float64 range while their logarithms are ordinary numbers
+    ms = draw(st.sampled_from([1.0, 1.0, 1.0, 1.0, 1.0, 1.0, 30.0, 0.03] + ([1e8, 1e-8] if extreme else [])
+                               + ([1e16, 1e-16, 1e16, 1e-16, 1e8, 1e-8] if extreme == "wide" else [])))
     if kind in ("measure", "diag_measure"):
         return {
             "Lambda": draw(spd(R, D, kappa=kappa, diag=diag)) * ms,
@@ -107,6 +120,39 @@ def measure_params(draw, kind, R, D, kappa=100.0, extreme=False):
             "ln_beta": draw(arr((R,))) * draw(st.sampled_from([1.0, 1.0, 1.0, 25.0])),
         }
     return {"Sigma": draw(spd(R, D, kappa=kappa, diag=diag)) * ms, "mu": draw(arr((R, D))) * vs * (ms ** 0.5)}
+
+
+def unit_of(kind, params):
+    """Length unit of a measure/density drawn with extreme=True: 10**k with k the rounded log10 of the geometric-mean
+    standard deviation of component 0 when that is beyond 1e+-3, else 1.0.  Evaluation points (and other operands) are
+    expressed in this unit so that comparisons stay sharp (a point 1e4 standard deviations out would bury every error under
+    the size of the quadratic form)."""
+    key = "Lambda" if "Lambda" in params and "Sigma" not in params else "Sigma"
+    ev = np.linalg.eigvalsh(np.asarray(params[key], float)[0])
+    sd = float(np.exp(0.5 * np.mean(np.log(ev))))
+    if key == "Lambda":
+        sd = 1.0 / sd
+    k = int(np.round(np.log10(sd)))
+    return 10.0 ** k if abs(k) >= 3 else 1.0
+
+
+def rescale_factor(kind, p, unit):
+    """The same factor expressed for arguments measured in `unit` (f'(x) = f(x / unit))."""
+    if unit == 1.0:
+        return p
+    p = dict(p)
+    if kind in ("general", "measure"):
+        p["Lambda"] = np.asarray(p["Lambda"], float) / unit**2
+        p["nu"] = np.asarray(p["nu"], float) / unit
+    elif kind == "rank_one":
+        p["v"] = np.asarray(p["v"], float) / unit
+        p["nu"] = np.asarray(p["nu"], float) / unit
+    elif kind == "linear":
+        p["nu"] = np.asarray(p["nu"], float) / unit
+    elif kind == "density":
+        p["Sigma"] = np.asarray(p["Sigma"], float) * unit**2
+        p["mu"] = np.asarray(p["mu"], float) * unit
+    return p
 
 
 @st.composite
